@@ -911,6 +911,43 @@ static_assert(!fm::allocator_traits<fm::heap_allocator>::is_stateful::value
                   && !fm::allocator_traits<fm::virtual_memory_allocator>::is_stateful::value,
               "low-level allocators are stateless");
 
+// The process-wide new-handler is shared state of new_allocator (its retry protocol reads it): std::get_new_handler /
+// std::set_new_handler are defined here (the executable's definitions win over libstdc++'s) with a scheduling point in
+// front, and operator new(nothrow) fails once for a thread that asked for it. A handler that "frees memory" is installed:
+// every request must then succeed in every schedule and the handler must still be installed afterwards.
+static std::atomic<std::new_handler> g_new_handler{nullptr};
+static std::atomic<long>             g_nh_calls{0}, g_new_failures{0};
+static thread_local int              t_fail_new = 0;
+namespace std
+{
+    new_handler set_new_handler(new_handler h) noexcept
+    {
+        if (sched::in_execution())
+            sched::point("new_handler.exchange");
+        return g_new_handler.exchange(h);
+    }
+    new_handler get_new_handler() noexcept
+    {
+        if (sched::in_execution())
+            sched::point("new_handler.load");
+        return g_new_handler.load();
+    }
+} // namespace std
+void* operator new(std::size_t n, const std::nothrow_t&) noexcept
+{
+    if (t_fail_new)
+    {
+        t_fail_new = 0;
+        ++g_new_failures;
+        return nullptr;
+    }
+    return std::malloc(n ? n : 1);
+}
+static void ll_freeing_handler()
+{
+    ++g_nh_calls; // "frees memory": the failure was one-shot, the retry succeeds
+}
+
 struct ll_world_base : pworld_base
 {
     std::ptrdiff_t start = 0;
@@ -928,6 +965,9 @@ struct ll_world : ll_world_base
         G    = &o;
         shared.reset(new fm::thread_safe_allocator<typename K::alloc, imutex>(typename K::alloc()));
         start = K::balance();
+        g_new_handler.store(ll_freeing_handler);
+        g_nh_calls     = 0;
+        g_new_failures = 0;
     }
     std::ptrdiff_t balance() override
     {
@@ -935,17 +975,21 @@ struct ll_world : ll_world_base
     }
     sched::u64 state_hash() override
     {
-        return sched::u64(K::balance() - start) * 1000003u;
+        return sched::u64(K::balance() - start) * 1000003u + (g_new_handler.load() == ll_freeing_handler ? 0u : 7u)
+               + sched::u64(g_nh_calls.load()) * 131u + sched::u64(g_new_failures.load()) * 17u;
     }
     void run_thread(int id) override
     {
         for (int op : prog[std::size_t(id)])
         {
-            if (op == 0)
+            if (op == 0 || op == 2)
             {
+                if (op == 2)
+                    t_fail_new = 1; // the next operator new(nothrow) of this thread fails once
                 typename K::alloc a;
                 void*             n = a.allocate_node(64, 8);
                 a.deallocate_node(n, 64, 8);
+                t_fail_new = 0;
             }
             else
             {
@@ -973,7 +1017,9 @@ static std::string ll_prog_names(const program& p)
     {
         jarr b;
         for (int o : t)
-            b.str(o ? "shared thread_safe_allocator: allocate_node;deallocate_node" : "own object: allocate_node;deallocate_node");
+            b.str(o == 2 ? "own object, operator new fails once, a new-handler that frees memory is installed: allocate_node;deallocate_node"
+                  : o      ? "shared thread_safe_allocator: allocate_node;deallocate_node"
+                           : "own object: allocate_node;deallocate_node");
         a.raw(b.done());
     }
     return a.done();
@@ -994,6 +1040,9 @@ static void judge_ll(const std::string& kind, ll_world_base& w, const sched::run
     if (w.o.lock_calls || !w.o.mutexes.empty())
         v.push_back({"stateless-locked", fmt("%s is stateless: %ld lock calls, %zu mutex objects (must be 0 / 0)", kind.c_str(),
                                              w.o.lock_calls, w.o.mutexes.size())});
+    if (r.complete && g_new_handler.load() != ll_freeing_handler)
+        v.push_back({"new-handler-lost", fmt("the installed new-handler was replaced (%s) by concurrent requests to %s: the process-wide handler is "
+                                             "shared state that a stateless allocator must not modify", g_new_handler.load() ? "by another" : "uninstalled", kind.c_str())});
     if (r.complete && !w.o.aborted)
     {
         std::ptrdiff_t d = w.balance() - w.start;
@@ -1009,6 +1058,11 @@ static std::string ll_case_json(const std::string& kind, const program& p, const
     for (auto x : sch)
         s.raw(std::to_string(int(x)));
     return jobj().boolean("ll", true).str("kind", kind).raw("prog", prog_json(p, false)).raw("calls", ll_prog_names(p)).raw("schedule", s.done()).done();
+}
+static std::vector<program> ll_programs_new_failure()
+{
+    // operator new fails in two / three threads at about the same time (new_allocator only)
+    return {{{2}, {2}}, {{2}, {0}}, {{2, 2}, {2}}, {{2}, {2}, {2}}};
 }
 static std::vector<program> ll_programs()
 {
@@ -1100,8 +1154,13 @@ static int ll_main(const argmap& a)
     std::map<std::string, int> viol_count;
     std::map<std::string, long> atomic_by_kind;
     jarr                     samples, viols;
-    auto                     progs = ll_programs();
+    auto                     progs0 = ll_programs();
     for (const char* kind : LL_KINDS)
+    {
+        auto progs = progs0;
+        if (std::string(kind) == "new_allocator")
+            for (auto& q : ll_programs_new_failure())
+                progs.push_back(q);
         for (std::size_t pi = 0; pi < progs.size(); ++pi)
         {
             const program& p = progs[pi];
@@ -1160,6 +1219,7 @@ static int ll_main(const argmap& a)
             if (st.divergences)
                 herr_list.push_back(std::string(kind) + ": " + st.stop_reason);
         }
+    }
     for (const char* kind : LL_KINDS)
         if (atomic_by_kind[kind] == 0)
             herr_list.push_back(std::string("vacuous: no scheduling point came from an atomic operation of ") + kind
